@@ -5,7 +5,7 @@ ID = "C08"
 GEN = "c08"
 HARNESS_TEST = "TestC08.*"
 COQ_MODEL = ["C08/Check.v", "Gen/C08Facts.v"]
-COQ_PROOF_DEPS = ["C08/Proofs.v"]
+COQ_PROOF_DEPS = ["C08/Proofs.v", "C08/Examples.v"]
 COQ_OBLIG = ["C08/Property.v", "Gen/C08Oblig.v"]
 CASES_HEADER = "Require Import Nib.C08.Model Nib.C08.Spec Nib.C08.Check Nib.Gen.C08Facts."
 CASE_TYPE = "case"
